@@ -90,8 +90,7 @@ func TestC13(t *testing.T) {
 	RunCheck(t, CheckSpec{Prop: "C13",
 		Rule:   "1-4 instances (followers, a leader, takeover-enabled candidates) while an outside party writes values from the descriptor grammar of C04 (plus raw bytes, phantom payloads with priorities above/below/equal, empty and very large values) and deletes the key at generated times; latencies include 0; oracle: no crash / hang / spin / unbounded recursion (process-level, watchdog), store operations per object bounded by delivered events and ticks, every promotion directly follows the object's own successful Create or strictly-higher-priority takeover of a decodable record, a leader whose record is rewritten or deleted is demoted within H+2T+RTT. Non-trivial = an outside write that is not the canonical payload currently live, landing after some instance started; distinct by plan hash.",
 		Gen:    func(t *rapid.T) *Plan { return GenPlan(t, "tamper", knobsTamper) },
-		Oracle: OracleC13,
-		Fixed:  func() []*Plan { return LoadRegressions("C13") }})
+		Oracle: OracleC13})
 }
 
 func TestC17Rounds(t *testing.T) {
